@@ -46,7 +46,7 @@ pub struct SessionResult {
     pub skipped: Option<String>,
 }
 
-const READ_LIMIT: Duration = Duration::from_millis(1500);
+const READ_LIMIT: Duration = Duration::from_millis(4000);
 
 fn nocfg() -> RandomCfg {
     RandomCfg { seg: 4, p_err: 0.0, p_pend: 0.0, wseg: 2, frames_left: 0, max_len: 0, classes: vec![], close_at_end: false, fixed: None, chunk: 0, burst: 0 }
